@@ -1,19 +1,14 @@
-// BOUNDED Kani check (at most 4 contigs of length 1..=3; never counted as proved) of IdxCheck::new + iter on the real
-// code, independent of how the two functions are written (the Verus unit `idxcheck` proves them for all references
-// in their current shape; this harness still decides when one is re-implemented with adapters Verus cannot take).
-// Serves C05: column i of the concatenated alignment is (contig c, position p) with offset(c) + p == i.
+// BOUNDED Kani checks (3 contigs of length 1..=2, and 1 contig of length 1..=3; never counted as proved) of
+// IdxCheck::new + iter on the real code, independent of how the two functions are written (the Verus unit `idxcheck`
+// proves them for all references in their current shape; these harnesses still decide when one is re-implemented
+// with adapters Verus cannot take).  Serves C05: column i of the concatenated alignment is (contig c, position p)
+// with offset(c) + p == i.
 use super::*;
 
-#[kani::proof]
-#[kani::unwind(14)]
-fn bounded_idxcheck_4x3() {
-    let n: usize = kani::any();
-    kani::assume(n >= 1 && n <= 4);
-    let lens: [usize; 4] = kani::any();
-    kani::assume(lens[0] >= 1 && lens[0] <= 3 && lens[1] >= 1 && lens[1] <= 3 && lens[2] >= 1 && lens[2] <= 3 && lens[3] >= 1 && lens[3] <= 3);
+fn check(lens: &[usize]) {
     let mut refs: Vec<Vec<u8>> = Vec::new();
     let mut c = 0;
-    while c < n {
+    while c < lens.len() {
         refs.push(vec![b'A'; lens[c]]);
         c += 1;
     }
@@ -21,13 +16,13 @@ fn bounded_idxcheck_4x3() {
     // end coordinates are the prefix sums
     let mut sum = 0;
     let mut j = 0;
-    while j < n {
+    while j < lens.len() {
         sum += lens[j];
         assert!(ic.end_coor[j] == sum);
         j += 1;
     }
-    assert!(ic.end_coor.len() == n);
-    // every column maps to the right contig / position, and the iterator stops exactly at the end
+    assert!(ic.end_coor.len() == lens.len());
+    // every column maps to the right contig / position
     let mut it = ic.iter();
     let mut col = 0;
     let mut cc = 0;
@@ -42,6 +37,21 @@ fn bounded_idxcheck_4x3() {
         }
         col += 1;
     }
-    kani::cover!(n == 4 && sum == 12);
-    kani::cover!(n == 1);
+}
+
+#[kani::proof]
+#[kani::unwind(8)]
+fn bounded_idxcheck_3contigs() {
+    let lens: [usize; 3] = kani::any();
+    kani::assume(lens[0] >= 1 && lens[0] <= 2 && lens[1] >= 1 && lens[1] <= 2 && lens[2] >= 1 && lens[2] <= 2);
+    check(&lens);
+    kani::cover!(lens[0] + lens[1] + lens[2] == 6);
+}
+
+#[kani::proof]
+#[kani::unwind(5)]
+fn bounded_idxcheck_1contig() {
+    let lens: [usize; 1] = kani::any();
+    kani::assume(lens[0] >= 1 && lens[0] <= 3);
+    check(&lens);
 }
